@@ -10,6 +10,15 @@ def repo_fix_and_hook_commits():
     return hooks
 
 CHECKS = {
+ 'C15': dict(level='exploration', design='6 C15', technique='deterministic simulation: seeded scripts of status changes, deletions, syncs, undo and rebuilds in both modes; working-set oracle after every rebuild (explicit or implied) and every commit',
+   text='Working-set oracle evaluated after every rebuild (explicit, or the one sync and undo perform) and every commit, in all family-A runs and in dedicated scripts that mix both rebuild modes so that prior working sets contain gaps and entries whose task was completed, deleted outright or removed by a sync.',
+   note='In-memory storage here; SQLite working-set calls are compared with it in C16. No order is required among simultaneous newcomers.'),
+ 'C19': dict(level='exploration', design='6 C19', technique='deterministic simulation (clock seam) plus model check: Task-API editing sessions under a simulated clock compared with an independent task model, recorded old values, read-back of tags/annotations/dependencies/UDAs/synthetic tags/dependency map',
+   text='Editing sessions of 1-8 mutators with arguments incl. invalid tags, synthetic tags and reserved UDA names, under clock policies forwards/backwards/stuck/jumping years, interleaved with syncs; stored task = held task = model; recorded old values true; reads agree with the model derived from stored data.',
+   note='What simulation contributes is the clock seam and the interleaving with syncs; the oracle is a reference model written from docs/src/tasks.md.'),
+ 'C20': dict(level='exploration', design='6 C20', technique='deterministic simulation (clock seam): expire_tasks under pinned clocks against boundary/unreadable modification times, with concurrent edits on other replicas and all sync orders',
+   text='Exactly the tasks with status deleted and readable modified more than 180 days before the caller\'s clock are purged (boundary +-1 s, future, missing, non-numeric, signed, out-of-range values), each recorded as one Delete; at quiescence no purged task exists anywhere although other replicas edited it concurrently.',
+   note='Scenarios never re-create a task id after the initial creation.'),
  'C04': dict(level='fault_enumeration', design='6 C04', technique='deterministic simulation with fault injection: per sampled sync, every storage call and server request is interrupted with each of {error before effect, effect then error, process stop}, then resync and compare with the uninterrupted outcome',
    text='For seeded histories the sync under test is first run fault-free to enumerate its interruption points, then re-executed from a copy of the same durable state once per point and fault kind; after each interruption the replica invariant must hold, repeating the sync must give exactly the replica and chain state of the uninterrupted sync with nothing left unsynchronized, and all replicas must then converge with every committed update accounted for once. Exhaustive over the interruption points of each sampled sync; histories are sampled.',
    note='Process stop = the replica future is dropped and only the committed in-memory store survives (SQLite kills are C06). Reference server as in C01.'),
